@@ -70,20 +70,38 @@ _NODE_CLASSES = ("PlayerOne", "PlayerTwo", "ProbabilisticNode")
 
 
 @contextlib.contextmanager
-def sweep_budget(tad, n_sweeps=None, n_states=None, extra_modules=()):
-    """Bound a solve to n_sweeps value-iteration sweeps (None = only count / silence)."""
+def sweep_budget(tad, n_sweeps=None, n_states=None, extra_modules=(), on_reward_phase=None):
+    """Bound a solve to n_sweeps value-iteration sweeps (None = only count / silence).
+
+    on_reward_phase(state_list) -> int, if given, is called when the total-reward loop is
+    entered (Solver.value_iteration_total_rewards wrapped at run time) and returns the number
+    of further sweeps allowed for that loop: the bound is derived from the game that is
+    actually iterated, which only exists once conditioning is done."""
     shim = _Shim(n_sweeps)
-    step_budget = None
+    shim.step_budget = None
     if n_sweeps is not None and n_states:
-        # both loops together, plus slack for the final bookkeeping pass
-        step_budget = (n_sweeps + 2) * max(1, n_states)
+        # plus slack for the final bookkeeping pass
+        shim.step_budget = (n_sweeps + 2) * max(1, n_states)
     saved_logging = []
     for mod in (tad,) + tuple(extra_modules):
         if hasattr(mod, "logging"):
             saved_logging.append((mod, mod.logging))
             mod.logging = shim
     saved_methods = []
-    if step_budget is not None:
+    solver_cls = getattr(tad, "Solver", None)
+    if on_reward_phase is not None and solver_cls is not None and \
+            "value_iteration_total_rewards" in solver_cls.__dict__:
+        orig_vi = solver_cls.__dict__["value_iteration_total_rewards"]
+
+        def vi_wrapped(self, *a, **k):
+            allowed = on_reward_phase(self.state_list)
+            if allowed is not None:
+                shim.budget = shim.sweeps + allowed
+                shim.step_budget = shim.steps + (allowed + 2) * max(1, len(self.state_list))
+            return orig_vi(self, *a, **k)
+        saved_methods.append((solver_cls, "value_iteration_total_rewards", orig_vi))
+        solver_cls.value_iteration_total_rewards = vi_wrapped
+    if shim.step_budget is not None:
         for cname in _NODE_CLASSES:
             cls = getattr(tad, cname, None)
             if cls is None:
@@ -96,8 +114,8 @@ def sweep_budget(tad, n_sweeps=None, n_states=None, extra_modules=()):
                 def make(orig):
                     def counted(self, *a, **k):
                         shim.steps += 1
-                        if shim.steps > step_budget:
-                            raise BudgetExceeded(f"more than {step_budget} node updates")
+                        if shim.steps > shim.step_budget:
+                            raise BudgetExceeded(f"more than {shim.step_budget} node updates")
                         return orig(self, *a, **k)
                     return counted
                 saved_methods.append((cls, mname, orig))
